@@ -27,6 +27,7 @@ type c02doc struct {
 	blobs      []int // indices of universe blobs it references (config, layers)
 	manifests  []int // indices of docs it references (index children)
 	subject    int   // doc index or -1
+	notJSON    bool  // the bytes are not valid JSON at all
 }
 
 type c02universe struct {
@@ -74,16 +75,16 @@ func newC02universe() *c02universe {
 	// D1: image manifest config=blob0 layers=[blob1]
 	add(&c02doc{mediaType: ocispec.MediaTypeImageManifest, wellFormed: true, blobs: []int{1, 0}, subject: -1,
 		data: c02marshal(ocispec.Manifest{MediaType: ocispec.MediaTypeImageManifest, Config: bdesc(0), Layers: []ocispec.Descriptor{bdesc(1)}})})
-	// D2: image manifest config=blob0, no layers, subject = D0 (may dangle)
+	// D2: image manifest config=blob0, layer blob1, subject = D0 (may dangle)
 	d0 := ociregistry.Descriptor{MediaType: c02opaque, Digest: u.docs[0].dig, Size: int64(len(u.docs[0].data))}
-	add(&c02doc{mediaType: ocispec.MediaTypeImageManifest, wellFormed: true, blobs: []int{0}, subject: 0,
-		data: c02marshal(ocispec.Manifest{MediaType: ocispec.MediaTypeImageManifest, Config: bdesc(0), Subject: &d0})})
+	add(&c02doc{mediaType: ocispec.MediaTypeImageManifest, wellFormed: true, blobs: []int{1, 0}, subject: 0,
+		data: c02marshal(ocispec.Manifest{MediaType: ocispec.MediaTypeImageManifest, Config: bdesc(0), Layers: []ocispec.Descriptor{bdesc(1)}, Subject: &d0, Annotations: map[string]string{"k": "d2"}})})
 	// D3: index with one child D1
 	d1 := ociregistry.Descriptor{MediaType: ocispec.MediaTypeImageManifest, Digest: u.docs[1].dig, Size: int64(len(u.docs[1].data))}
 	add(&c02doc{mediaType: ocispec.MediaTypeImageIndex, wellFormed: true, manifests: []int{1}, subject: -1,
 		data: c02marshal(ocispec.Index{MediaType: ocispec.MediaTypeImageIndex, Manifests: []ocispec.Descriptor{d1}})})
 	// D4: image media type, malformed JSON
-	add(&c02doc{mediaType: ocispec.MediaTypeImageManifest, data: []byte("{"), wellFormed: false, subject: -1})
+	add(&c02doc{mediaType: ocispec.MediaTypeImageManifest, data: []byte("{"), wellFormed: false, subject: -1, notJSON: true})
 	// D5: image manifest whose config descriptor is not sane (zero size, non-empty-content digest)
 	bad := bdesc(0)
 	bad.Size = 0
@@ -96,7 +97,40 @@ func newC02universe() *c02universe {
 // ---- reference model
 
 type c02man struct {
-	doc *c02doc
+	doc       *c02doc
+	mediaType string
+	view      c02view
+}
+
+// c02view: how a document reads when interpreted under a given media type.
+type c02view struct {
+	wellFormed bool
+	blobs      []int
+	manifests  []int
+	subject    int
+}
+
+func c02jsonType(mt string) bool {
+	return mt == ocispec.MediaTypeImageManifest || mt == ocispec.MediaTypeImageIndex
+}
+
+func c02viewOf(d *c02doc, mt string) c02view {
+	switch {
+	case mt == d.mediaType:
+		return c02view{d.wellFormed, d.blobs, d.manifests, d.subject}
+	case !c02jsonType(mt):
+		// not a type the registry parses: accepted as opaque bytes
+		return c02view{wellFormed: true, subject: -1}
+	case !c02jsonType(d.mediaType):
+		// opaque bytes under a JSON manifest type: not JSON
+		return c02view{wellFormed: false, subject: -1}
+	}
+	// an image manifest read as an index or vice versa: the other kind's reference
+	// fields are absent; malformed JSON stays malformed; the subject field is common
+	if d.notJSON {
+		return c02view{wellFormed: false, subject: -1}
+	}
+	return c02view{wellFormed: true, subject: d.subject}
 }
 
 type c02repo struct {
@@ -172,17 +206,17 @@ func (m *c02model) tagged(r *c02repo, dig ociregistry.Digest) bool {
 		if mm == nil {
 			return false
 		}
-		for _, bi := range mm.doc.blobs {
+		for _, bi := range mm.view.blobs {
 			if m.u.bdig[bi] == dig {
 				return true
 			}
 		}
-		for _, mi := range mm.doc.manifests {
+		for _, mi := range mm.view.manifests {
 			if visit(m.u.docs[mi].dig) {
 				return true
 			}
 		}
-		if mm.doc.subject >= 0 && visit(m.u.docs[mm.doc.subject].dig) {
+		if mm.view.subject >= 0 && visit(m.u.docs[mm.view.subject].dig) {
 			return true
 		}
 		return false
@@ -225,22 +259,21 @@ func (m *c02model) pushManifest(repo, tag string, d *c02doc, mediaType string) i
 	if mediaType == "" {
 		return oOther
 	}
-	if mediaType == d.mediaType {
-		if !d.wellFormed {
+	view := c02viewOf(d, mediaType)
+	if !view.wellFormed {
+		return oOther
+	}
+	for _, bi := range view.blobs {
+		if _, ok := r.blobs[m.u.bdig[bi]]; !ok {
 			return oOther
 		}
-		for _, bi := range d.blobs {
-			if _, ok := r.blobs[m.u.bdig[bi]]; !ok {
-				return oOther
-			}
-		}
-		for _, mi := range d.manifests {
-			if r.manifests[m.u.docs[mi].dig] == nil {
-				return oOther
-			}
+	}
+	for _, mi := range view.manifests {
+		if r.manifests[m.u.docs[mi].dig] == nil {
+			return oOther
 		}
 	}
-	r.manifests[d.dig] = &c02man{doc: d}
+	r.manifests[d.dig] = &c02man{doc: d, mediaType: mediaType, view: view}
 	if tag != "" {
 		r.tags[tag] = ociregistry.Descriptor{MediaType: mediaType, Digest: d.dig, Size: int64(len(d.data))}
 	}
@@ -381,7 +414,7 @@ func c02observe(reg *Registry, m *c02model) {
 			}
 			verifAssert(c02sameOutcome(c02class(err), want, empty), "manifest-presence-as-model")
 			if err == nil && want == oOK {
-				verifAssert(desc.Digest == d.dig && desc.Size == int64(len(d.data)), "manifest-descriptor-as-model")
+				verifAssert(desc.Digest == d.dig && desc.Size == int64(len(d.data)) && desc.MediaType == mr.manifests[d.dig].mediaType, "manifest-descriptor-as-model")
 			}
 		}
 		for _, tag := range []string{"t1", "t2"} {
@@ -426,7 +459,7 @@ func c02observe(reg *Registry, m *c02model) {
 		var want []ociregistry.Digest
 		if mr != nil {
 			for dg, mm := range mr.manifests {
-				if mm.doc.subject == 0 {
+				if mm.view.subject == 0 {
 					want = append(want, dg)
 				}
 			}
@@ -467,9 +500,13 @@ func c02observe(reg *Registry, m *c02model) {
 // ---- one symbolic operation, applied to both
 
 func c02step(reg *Registry, m *c02model, name string) {
+	c02stepRestricted(reg, m, name, []int{0, 1, 2, 3, 4, 5})
+}
+
+func c02stepRestricted(reg *Registry, m *c02model, name string, ops []int) {
 	u := m.u
 	repos := []string{"r1", "r2", "Bad!"}
-	switch verifChoose(name+".op", 6) {
+	switch ops[verifChoose(name+".op", len(ops))] {
 	case 0: // push blob
 		rn := repos[verifChoose(name+".repo", 3)]
 		bi := verifChoose(name+".blob", 2)
@@ -495,8 +532,19 @@ func c02step(reg *Registry, m *c02model, name string) {
 		tag := []string{"", "t1", "t2", "!bad"}[verifChoose(name+".tag", 4)]
 		d := u.docs[verifChoose(name+".doc", len(u.docs))]
 		mediaType := d.mediaType
-		if verifChoose(name+".mt", 3) == 1 {
+		switch verifChoose(name+".mt", 4) {
+		case 1:
 			mediaType = ""
+		case 2:
+			// the same bytes under another media type
+			switch d.mediaType {
+			case ocispec.MediaTypeImageManifest:
+				mediaType = ocispec.MediaTypeImageIndex
+			case ocispec.MediaTypeImageIndex:
+				mediaType = c02opaque
+			default:
+				mediaType = ocispec.MediaTypeImageManifest
+			}
 		}
 		desc, err := reg.PushManifest(vctx, rn, tag, d.data, mediaType)
 		want := m.pushManifest(rn, tag, d, mediaType)
@@ -572,6 +620,37 @@ func VerifC02_Steps() {
 	verifCover("end")
 }
 
+// VerifC02_DeleteThenPush: from the full pre-state (everything of the setup menu pushed
+// and tagged), a delete followed by a push: re-pushing content whose references were
+// deleted meanwhile, or the same bytes under another media type.
+func VerifC02_DeleteThenPush() {
+	u := newC02universe()
+	immutable := verifBool("immutableTags")
+	reg := NewWithConfig(&Config{ImmutableTags: immutable})
+	m := &c02model{immutable: immutable, repos: map[string]*c02repo{}, u: u}
+	must := func(err error, want int) { verifAssert(c02class(err) == want, "setup-step-outcome") }
+	for bi := range u.blobs {
+		_, err := reg.PushBlob(vctx, "r1", ociregistry.Descriptor{MediaType: "application/octet-stream", Digest: u.bdig[bi], Size: int64(len(u.blobs[bi]))}, bytes.NewReader(u.blobs[bi]))
+		must(err, m.pushBlob("r1", bi, true, true, true))
+	}
+	for di, tag := range []string{"", "", "t2", ""} {
+		if tag != "" && !verifBool("setup.tagged") {
+			tag = ""
+		}
+		d := u.docs[di]
+		_, err := reg.PushManifest(vctx, "r1", tag, d.data, d.mediaType)
+		must(err, m.pushManifest("r1", tag, d, d.mediaType))
+	}
+	// first a delete ...
+	c02stepRestricted(reg, m, "del", []int{3, 4, 5})
+	c02observe(reg, m)
+	// ... then a push
+	c02stepRestricted(reg, m, "push", []int{0, 1})
+	c02observe(reg, m)
+	verifCover("end")
+}
+
 func init() {
+	verifRegister("VerifC02_DeleteThenPush", VerifC02_DeleteThenPush)
 	verifRegister("VerifC02_Steps", VerifC02_Steps)
 }
